@@ -291,12 +291,175 @@ def check_copy_back(ck, tu):
                          "to the caller's array", fn.loc)
 
 
+def check_packed_lcp(ck, tu):
+    """the tree builders store `lcp | (splitter ends inside the key ? FLAG : 0)` into the splitter_lcp byte; every
+    reader must therefore select a part of the byte with a constant mask (the flag, or its complement)"""
+    flags = set()
+    n_writes = 0
+    for fn in tu.functions:
+        if not fn.record or "TreeBuilder" not in fn.record or fn.body is None:
+            continue
+        for z in fn.nodes():
+            b = match.binop(z, ("=",)) if z["k"] == "BinaryOperator" else None
+            if not b:
+                continue
+            d = match.deref_of(b[1])
+            if d is None:
+                continue
+            tgt = [x for x in ir.walk(d) if x["k"] == "MemberExpr" and x.get("member", "").startswith("lcp")]
+            if not tgt:
+                continue
+            orr = match.binop(b[2], ("|",))
+            if not orr:
+                continue
+            n_writes += 1
+            for side in orr[1:]:
+                for x in ir.walk(side):
+                    if x["k"] == "ConditionalOperator":
+                        for br in kids(x)[1:]:
+                            c = const_int(br)
+                            if c:
+                                flags.add(c)
+    if not n_writes or len(flags) != 1:
+        raise ir.AnalysisBroken("packing of the splitter LCP byte not recognised in the tree builders (flags %s)" % sorted(flags))
+    flag = flags.pop()
+    value_mask = 0xFF ^ flag
+    # packed fields: the arrays handed to classifier.build()
+    packed = set()
+    for fn in tu.functions:
+        if fn.body is None:
+            continue
+        for z in fn.nodes():
+            if "callee" in z and z["callee"]["name"] == "build" and z.get("member_call") and len(kids(z)) >= 4:
+                a = strip_casts(kids(z)[3])
+                if a["k"] == "MemberExpr":
+                    packed.add(a["member"])
+    if not packed:
+        raise ir.AnalysisBroken("no array is handed to classifier.build() as LCP table")
+    n = 0
+    for fn in tu.functions:
+        if fn.body is None or not fn.qname.startswith("tlx::sort_strings_detail::"):
+            continue
+        for z in fn.nodes():
+            if z["k"] != "ArraySubscriptExpr":
+                continue
+            base = strip_casts(kids(z)[0])
+            if base["k"] != "MemberExpr" or base.get("member") not in packed:
+                continue
+            par = fn.parent(z)
+            while par is not None and par["k"] in ("ImplicitCastExpr", "ParenExpr", "CStyleCastExpr", "CXXStaticCastExpr", "CXXFunctionalCastExpr"):
+                par = fn.parent(par)
+            if par is not None and par["k"] in ("BinaryOperator", "CompoundAssignOperator") and par.get("op") in ("=", "&=", "|=") and \
+                    any(x is z for x in ir.walk(kids(par)[0])):
+                continue        # a write
+            n += 1
+            mask = None
+            if par is not None and par["k"] == "BinaryOperator" and par.get("op") == "&":
+                for side in kids(par):
+                    c = const_int(side)
+                    if c is not None and not any(x is z for x in ir.walk(side)):
+                        mask = c
+            tag = "%s [%s]" % (fn.name, inst(fn))
+            if mask not in (flag, value_mask):
+                ck.violation("PACKED-LCP-MASK", fn.qname, "%s:%s" % (fn.name, base["member"]),
+                             "%s[...] packs the splitter LCP (low bits) with the 0x%02X flag `splitter ends inside the key`; it is used here %s, so a flagged "
+                             "splitter adds %d to the depth handed on" % (base["member"], flag, "unmasked" if mask is None else "with mask 0x%02X" % mask, flag),
+                             fn.nloc(z))
+            else:
+                ck.ok("PACKED-LCP-MASK", tag, "%s & 0x%02X" % (base["member"], mask), nontrivial=False)
+    return n
+
+
+INVALIDATING = ("resize", "destroy", "clear", "reserve", "shrink_to_fit", "swap", "push_back", "emplace_back", "assign", "operator=")
+
+
+def check_stale_data_pointer(ck, tu):
+    """a raw pointer taken from a member buffer (`member.data()`) and kept in a local must not be used after a call
+    that may re-allocate or release that buffer (directly or through other member functions of the same object)"""
+    by_rec = {}
+    for fn in tu.functions:
+        if fn.record and fn.record.startswith("tlx::sort_strings_detail::PS5") and fn.body is not None and fn.kind != "lambda":
+            by_rec.setdefault((fn.record, tuple(fn.rtargs or [])), []).append(fn)
+    n = 0
+    for (rec, _), fns in by_rec.items():
+        # which members may each method invalidate (transitively through calls on this)
+        direct, calls = {}, {}
+        for fn in fns:
+            inv, cl = set(), set()
+            for z in fn.nodes():
+                if "callee" not in z:
+                    continue
+                if z.get("member_call") and z["callee"]["name"] in INVALIDATING and kids(z):
+                    m = match.this_field(kids(z)[0])
+                    if m:
+                        inv.add(m)
+                if z["k"] == "CXXOperatorCallExpr" and z.get("op") == "=" and kids(z):
+                    m = match.this_field(kids(z)[0])
+                    if m:
+                        inv.add(m)
+                if z.get("member_call") and kids(z) and strip_casts(kids(z)[0])["k"] == "This":
+                    cl.add(z["callee"]["did"])
+            direct[fn.did], calls[fn.did] = inv, cl
+        summ = {d: set(v) for d, v in direct.items()}
+        changed = True
+        while changed:
+            changed = False
+            for d in summ:
+                for c in calls[d]:
+                    if c in summ and not summ[c] <= summ[d]:
+                        summ[d] |= summ[c]
+                        changed = True
+        for fn in fns:
+            g = None
+            for v in fn.nodes():
+                if v["k"] != "VarDecl" or not kids(v) or "*" not in (v.get("ty") or ""):
+                    continue
+                src = [z for z in ir.walk(kids(v)[0]) if "callee" in z and z.get("member_call") and z["callee"]["name"] in ("data", "begin")
+                       and kids(z) and match.this_field(kids(z)[0])]
+                if not src:
+                    continue
+                member = match.this_field(kids(src[0])[0])
+                n += 1
+                if g is None:
+                    g = cfgm.CFG(fn)
+                pdecl = g.pos_deep(v)
+                uses = [z for z in fn.nodes() if z["k"] == "DeclRefExpr" and z["ref"]["id"] == v["did"]]
+                bad = None
+                for c in fn.nodes():
+                    if "callee" not in c or not c.get("member_call") or not kids(c):
+                        continue
+                    direct_inv = c["callee"]["name"] in INVALIDATING and match.this_field(kids(c)[0]) == member
+                    via = strip_casts(kids(c)[0])["k"] == "This" and member in summ.get(c["callee"]["did"], ())
+                    if not (direct_inv or via):
+                        continue
+                    pc = g.pos_deep(c)
+                    if pc is None or pdecl is None or not (g.reachable(pdecl, pc) or g.dominates(pdecl, pc)):
+                        continue        # the buffer is (re)sized before the pointer is taken
+                    for u in uses:
+                        pu = g.pos_deep(u)
+                        if pu is not None and g.reachable(pc, pu):
+                            bad = (c, u)
+                            break
+                    if bad:
+                        break
+                tag = "%s::%s [%s] %s = %s.data()" % (rec.split("::")[-1], fn.name, inst(fn), v.get("name"), member)
+                if bad:
+                    c, u = bad
+                    ck.violation("STALE-DATA-POINTER", fn.qname, "%s:%s" % (fn.name, v.get("name")),
+                                 "`%s` caches %s.data(); %s() (line %s) may destroy and re-allocate %s, and `%s` is used again afterwards (line %s): "
+                                 "writes through it go to a freed block" % (v.get("name"), member, c["callee"]["name"], c.get("l"), member,
+                                                                              v.get("name"), u.get("l")), fn.nloc(u))
+                else:
+                    ck.ok("STALE-DATA-POINTER", tag, "no use after a call that may re-allocate %s" % member)
+    return n
+
+
 def run(ck):
     ck.explanation = (
         "Sortedness and LCP values depend on values and are not decided. Decided ownership/ordering clauses: USE-AFTER-RELEASE - in every member "
         "function of the self-deleting job classes no member of *this is reachable in the CFG after a release point (substep_notify_done(), delete "
         "this, giving up the job's own claim on the phase counter, or enqueuing a job while no handle is held); ADD-BEFORE-ENQUEUE / HANDLE-PAIR; "
-        "RMW-RESULT (completion decided by the decrement's own result, acq_rel or stronger); PHASE-ARM (pwork_ armed with the number of jobs before "
+        "RMW-RESULT (completion decided by the decrement's own result, acq_rel or stronger); PACKED-LCP-MASK (every read of the packed splitter_lcp byte selects the LCP or the flag with the builder's mask); PHASE-ARM (pwork_ armed with the number of jobs before "
         "the first one is enqueued); COMPLETION-BARRIER; COPY-BACK on all paths of the leaf sorter. Two genuine use-after-free defects were found "
         "(distribute_finished, loop bound re-read after the last enqueue) and fixed. The ThreadPool itself is C10.")
     tu = ir.extract("witness/C04_parallel_sample_sort.cpp")
@@ -314,6 +477,9 @@ def run(ck):
     check_rmw(ck, tu)
     check_completion(ck, tu)
     check_copy_back(ck, tu)
+    check_packed_lcp(ck, tu)
+    check_stale_data_pointer(ck, tu)
+    ck.floor("PACKED-LCP-MASK", 12)
     ck.floor("USE-AFTER-RELEASE", 40)
     ck.floor("ADD-BEFORE-ENQUEUE", 12)
     ck.floor("HANDLE-PAIR", 12)
